@@ -18,6 +18,8 @@ open Finset Complex ComplexConjugate
 
 namespace HcipyVerif.NearField
 
+open HcipyVerif.Fft (PSum expT)
+
 theorem F_pad_cutoutEmb (p : Params) (h : padOK p = true) (x : Fin p.ny × Fin p.nx → ℂ)
     (py : Fin (my p)) (px : Fin (mx p)) :
     (dftPair2 (my p) (mx p) (my_pos h) (mx_pos h)).F (pad (cutoutEmb p h) x) (py, px)
@@ -110,5 +112,55 @@ theorem filterMN_map {n : ℕ} (My Mx : ℕ) (kFy kFx kBy kBx : ℤ → C) (sc :
   exact padAt_map φ h0 sy sx ny nx (x k) a b
 
 end map
+
+/-! ## the exact Fresnel transfer function (`psumMeanTurns`) and locality of the pipeline -/
+
+theorem ev_foldr_turns (l : List ℚ) :
+    PSum.ev ((l.map PSum.turns).foldr (· + ·) 0)
+      = (l.map fun t => cexp (((2 * Real.pi * ((t : ℚ) : ℝ) : ℝ) : ℂ) * I)).sum := by
+  induction l with
+  | nil => rfl
+  | cons t ts ih =>
+    rw [List.map_cons, List.foldr_cons, PSum.ev_add, ih, PSum.ev_turns, List.map_cons, List.sum_cons]
+    congr 1
+    unfold expT
+    congr 1
+    push_cast
+    ring
+
+theorem ev_psumMeanTurns (l : List ℚ) :
+    PSum.ev (psumMeanTurns l) = listMean (l.map fun t => cexp (((2 * Real.pi * ((t : ℚ) : ℝ) : ℝ) : ℂ) * I)) := by
+  unfold psumMeanTurns listMean
+  rw [PSum.ev_mul, PSum.ev_ofRat, ev_foldr_turns, List.length_map]
+  push_cast
+  ring
+
+theorem padAt_congr {sy sx ny nx : ℕ} {x x' : ℕ → ℕ → ℂ} (hx : ∀ a, a < ny → ∀ b, b < nx → x a b = x' a b)
+    (py px : ℕ) : padAt sy sx ny nx x py px = padAt sy sx ny nx x' py px := by
+  unfold padAt
+  split_ifs with hc
+  · exact hx _ (by omega) _ (by omega)
+  · rfl
+
+/-- The pipeline reads the transfer function only on `[0,My)×[0,Mx)` and the input only on `[0,ny)×[0,nx)`. -/
+theorem filterN_congr {My Mx : ℕ} (kFy kFx kBy kBx : ℤ → ℂ) (sc : ℂ) (sy sx ny nx : ℕ) {D D' x x' : ℕ → ℕ → ℂ}
+    (hD : ∀ a, a < My → ∀ b, b < Mx → D a b = D' a b) (hx : ∀ a, a < ny → ∀ b, b < nx → x a b = x' a b) (ky kx : ℕ) :
+    filterN My Mx kFy kFx kBy kBx sc sy sx ny nx D x ky kx = filterN My Mx kFy kFx kBy kBx sc sy sx ny nx D' x' ky kx := by
+  unfold filterN cropAt
+  show sc * _ = sc * _
+  congr 1
+  rw [dft2_fin, dft2_fin]
+  apply Finset.sum_congr rfl
+  intro py _
+  apply Finset.sum_congr rfl
+  intro px _
+  congr 1
+  rw [hD _ py.2 _ px.2]
+  congr 1
+  have : padAt sy sx ny nx x = padAt sy sx ny nx x' := by
+    funext a b
+    exact padAt_congr hx a b
+  rw [this]
+
 
 end HcipyVerif.NearField
